@@ -28,6 +28,19 @@ class FeatureProduction(Production):
         for i, feature_structure in enumerate(body_features):
             self._features.add_content(str(i), feature_structure)
 
+    def __eq__(self, other):
+        # Two feature productions with the same head and body can carry
+        # different features
+        if not super().__eq__(other):
+            return False
+        if not isinstance(other, FeatureProduction):
+            return True
+        return _get_description(self.features) == \
+            _get_description(other.features)
+
+    def __hash__(self):
+        return super().__hash__()
+
     @property
     def features(self):
         """The merged features of the production rules"""
@@ -45,3 +58,22 @@ class FeatureProduction(Production):
             if body_part_cond:
                 res.append("[" + body_part_cond + "]")
         return " ".join(res)
+
+
+def _get_description(feature_structure):
+    """ Describes a feature structure by the value at each path and by the
+    groups of paths which lead to the same structure"""
+    values = {}
+    paths_by_node = {}
+
+    def explore(current, path):
+        current = current.get_dereferenced()
+        values[path] = current.value
+        paths_by_node.setdefault(id(current), set()).add(path)
+        for feature, content in current.content.items():
+            explore(content, path + (feature,))
+
+    explore(feature_structure, ())
+    shared = {frozenset(paths) for paths in paths_by_node.values()
+              if len(paths) > 1}
+    return values, shared
